@@ -357,22 +357,56 @@ DISTINCT = [
     ("[a:b IN (9007199254740993, 1)]", "[a:b IN (9007199254740992, 1)]"), ("[a:b > 18014398509481985]", "[a:b > 18014398509481984]"),
     ("[a:b = 9007199254740993 OR a:b = 9007199254740992]", "[a:b = 9007199254740992]"),
 ]
+# special-value canonicalisation (registry keys compare without case, addresses by network) applies to exactly the documented paths under the
+# operators that compare a key / an address -- not to longer or shorter paths, other object types, regular expressions or text order
+_RK, _V4, _V6 = ("'ABC'", "'abc'"), ("'1.2.3.4/24'", "'1.2.3.0/24'"), ("'1:2:3:4:5:6:7:8/112'", "'1:2:3:4:5:6:7:0/112'")
+for _t, _paths, (_a, _b) in (("windows-registry-key", ["values[0]", "key.x", "values[0].name.x", "values", "values[0].data", "key[0]", "values[*].data_type"], _RK),
+                             ("ipv4-addr", ["value.x", "value[0]", "resolves_to_refs[0].value", "valu"], _V4), ("ipv6-addr", ["value[0]", "value.x"], _V6),
+                             ("file", ["name", "key"], _RK), ("domain-name", ["value"], _V4), ("mac-addr", ["value"], _V6), ("x-key", ["key", "values[0].name"], _RK)):
+    for _p in _paths:
+        DISTINCT.append(("[%s:%s = %s]" % (_t, _p, _a), "[%s:%s = %s]" % (_t, _p, _b)))
+for _t, (_a, _b) in (("ipv4-addr", _V4), ("ipv6-addr", _V6)):
+    for _op in ("MATCHES", "LIKE", ">", "<", ">=", "<="):
+        DISTINCT.append(("[%s:value %s %s]" % (_t, _op, _a), "[%s:value %s %s]" % (_t, _op, _b)))
+DISTINCT += [
+    ("[windows-registry-key:key MATCHES '\\\\D+']", "[windows-registry-key:key MATCHES '\\\\d+']"),
+    ("[windows-registry-key:values[0].name MATCHES '^\\\\W\\\\S$']", "[windows-registry-key:values[0].name MATCHES '^\\\\w\\\\s$']"),
+    # the same literal on a special path and on an ordinary path of one pattern: only the former compares without case / by network
+    ("[windows-registry-key:key = 'HKLM\\\\Run' AND windows-registry-key:values[0].data = 'HKLM\\\\Run']",
+     "[windows-registry-key:key = 'HKLM\\\\Run' AND windows-registry-key:values[0].data = 'hklm\\\\run']"),
+    ("[ipv4-addr:value = '10.1.2.3/8'] AND [domain-name:value = '10.1.2.3/8']", "[ipv4-addr:value = '10.1.2.3/8'] AND [domain-name:value = '10.0.0.0/8']"),
+    ("[ipv4-addr:value = '10.1.2.3/8' OR ipv4-addr:x_note = '10.1.2.3/8']", "[ipv4-addr:value = '10.1.2.3/8' OR ipv4-addr:x_note = '10.0.0.0/8']"),
+]
+REWRITES += [
+    ("[windows-registry-key:values[3].name = 'ABC']", "[windows-registry-key:values[3].name = 'abc']"), ("[windows-registry-key:values[*].name = 'ABC']", "[windows-registry-key:values[*].name = 'abc']"),
+    ("[ipv4-addr:value ISSUBSET '10.1.2.3/8']", "[ipv4-addr:value ISSUBSET '10.0.0.0/8']"), ("[ipv6-addr:value = '1:2:3:4:5:6:7:8/112']", "[ipv6-addr:value = '1:2:3:4:5:6:7:0/112']"),
+    ("[ipv4-addr:value != '10.1.2.3/8']", "[ipv4-addr:value != '10.0.0.0/8']"),
+]
 NRW, NDI = len(REWRITES), len(DISTINCT)
+NRD = max(NRW, NDI)
+# what the process did before must not matter: each verdict below is taken after these calls (special values canonicalised, literals seen on
+# special paths), which is the history a long-running caller has anyway
+HISTORY = [("[windows-registry-key:key = 'ABC']", "[windows-registry-key:key = 'abc']"), ("[ipv4-addr:value = '10.1.2.3/8']", "[ipv4-addr:value = '10.0.0.0/8']"),
+           ("[ipv4-addr:value = '1.2.3.4/24']", "[ipv4-addr:value = '1.2.3.0/24']"), ("[ipv6-addr:value = '1:2:3:4:5:6:7:8/112']", "[ipv6-addr:value = '1:2:3:4:5:6:7:0/112']"),
+           ("[windows-registry-key:key = 'HKLM\\\\Run']", "[windows-registry-key:key = 'hklm\\\\run']")]
 
 
 def rewrites(i: int, which: int) -> bool:
     """
-    pre: 0 <= which <= 1 and 0 <= i < NRW
+    pre: 0 <= which <= 1 and 0 <= i < NRD
     post: _
     """
-    which, i = pick(which, 2), pick(i, NRW)
+    which, i = pick(which, 2), pick(i, NRD)
     with Native():
-        if which == 0:
+        for hp, hq in HISTORY:
+            equivalent_patterns(hp, hq, stix_version="2.1")
+        if which == 0 and i < NRW:
             p, q = REWRITES[i]
             ok = equivalent_patterns(p, q, stix_version="2.1") and equivalent_patterns(q, p, stix_version="2.1")
-        elif i < NDI:
+        elif which == 1 and i < NDI:
             p, q = DISTINCT[i]
-            ok = not equivalent_patterns(p, q, stix_version="2.1")
+            ok = not equivalent_patterns(p, q, stix_version="2.1") and not equivalent_patterns(q, p, stix_version="2.1") \
+                and list(find_equivalent_patterns(p, [q, p], stix_version="2.1")) == [p]
         else:
             ok = True
     V.reached()
